@@ -163,6 +163,12 @@ func c18Check(t *fw.T, ast *js.AST, policy int) bool {
 				t.Failf("Enter(%T) with a node that is not part of the tree (reachable only outside it, e.g. through scope tables)", ev.node)
 				return false
 			}
+			// the same for the sub-structures Walk enters (case clauses, parameters, elements, properties, arguments, …):
+			// what is handed to the visitor is the structure inside the tree, not a copy of it
+			if _, lit := ev.node.(*js.LiteralExpr); !lit && k != (nodeKey{}) && !zeroSized(ev.node) && !addrs[k.p] {
+				t.Failf("Enter(%T) with a pointer that does not point into the tree (a copy of the node?)", ev.node)
+				return false
+			}
 			entered[k]++
 			if _, ok := order[k]; !ok {
 				order[k] = i
@@ -277,7 +283,8 @@ func c18Run(t *fw.T) {
 		src = []byte(s)
 	} else {
 		li := langs["js"]
-		src = gen.ToValidUTF8(gen.Hostile(r, li.corpus, li.dict, 400))
+		_ = li
+		src = gen.ToValidUTF8(hostileInput(r, "js", 400))
 	}
 	op := jsOptions[r.Intn(2)]
 	policy := r.Intn(3)
@@ -304,6 +311,9 @@ var c18Probes = []string{
 	"for(const {a,b:[c]} of d){ try{e}catch({f}){g} }",
 	"label: while(a){ if(b) continue label; else break label }",
 	"export default class extends B { static { init() } }",
+	"class A { x = 1; static y; [k] = z; #p }",
+	"switch (a) { case 1: b; case 2: default: c }",
+	"tag`a${b}c${d}`; o.f`x`; try {} catch ({e}) {}",
 }
 
 func c18Probe(t *fw.T) {
